@@ -17,7 +17,7 @@ pub fn meta() -> Meta {
     Meta {
         id: "C07",
         level: "model_checking",
-        rule: "explicit-state search over pools of .skf files: level 0 = every ordered list of distinct samples (all subsets, all orders) built with the real build; each further level merges every ordered selection of 2..4 known files with disjoint sample sets through the real generic_modes::merge (the function `ska merge` calls); a file's state is its full content incl. hidden fields and states are de-duplicated, so the search closes when merged files are indistinguishable from built ones and keeps expanding otherwise (nested merges). Invariant in every state: table and name order equal the model's joint table and the real joint build of the same samples in that order. k in {7,31,33,63} x strand modes; n<=5 quick; thorough adds n=5 at both widths and n=6 with pairwise merges (chains and trees arise over the levels). Refusals (different k incl. 31 vs 33, different strand mode, both orders, the incompatible file in second or third position) through the CLI: non-zero exit and no output file. Selected merge trees are re-executed through `ska merge`, files whose samples share a name (same base name in different directories, the same file twice) are merged through the CLI and compared with the joint build, and `ska align` of the merged file is compared with `ska align` of the jointly built file.".into(),
+        rule: "explicit-state search over pools of .skf files: level 0 = every ordered list of distinct samples (all subsets, all orders) built with the real build; each further level merges every ordered selection of 2..4 known files with disjoint sample sets through the real generic_modes::merge (the function `ska merge` calls); a file's state is its full content incl. hidden fields and states are de-duplicated, so the search closes when merged files are indistinguishable from built ones and keeps expanding otherwise (nested merges). Invariant in every state: table and name order equal the model's joint table and the real joint build of the same samples in that order. k in {7,31,33,63} x strand modes; n<=5 quick; thorough adds n=5 at both widths and n=6 with pairwise merges (chains and trees arise over the levels). Refusals (different k incl. 31 vs 33, different strand mode, both orders, the incompatible file in second or third position) through the CLI: non-zero exit and no output file. Selected merge trees are re-executed through `ska merge`, files whose samples share a name (same base name in different directories, the same file twice) are merged through the CLI and compared with the joint build, merges whose output file is one of the inputs (first, last, with ./ and suffix) must still hold all inputs in argument order, and `ska align` of the merged file is compared with `ska align` of the jointly built file.".into(),
         assumptions: vec!["sorted-row canonical form: merge treats rows independently".into()],
         exhaustive_when_uncapped: true, // the declared bounded space (all selections / the whole lattice / all histories up to the depth bound / all interleavings and configurations) is enumerated completely unless capped
     }
@@ -349,6 +349,51 @@ fn equal_names(ctx: &Ctx, rep: &mut Report, idx: &mut u64) {
     }
 }
 
+/// accumulating in place: the output file is one of the inputs (`ska merge -o all all.skf new1.skf new2.skf`)
+fn in_place(ctx: &Ctx, rep: &mut Report, idx: &mut u64) {
+    for k in [7usize, 33] {
+        *idx += 1;
+        if !ctx.mine(*idx) {
+            continue;
+        }
+        let pool = samples::pool(k, ctx.seed);
+        let dir = scratch::path(&format!("c07inplace{k}"));
+        let _ = std::fs::create_dir_all(&dir);
+        let ks = k.to_string();
+        let names: Vec<String> = (0..4).map(|i| format!("p{i}")).collect();
+        for i in 0..4 {
+            std::fs::write(format!("{dir}/p{i}.fa"), scratch::fasta(&pool[i])).unwrap();
+        }
+        let fresh = |dir: &str| -> bool {
+            // all = [p0, p1] ; n2 = [p2] ; n3 = [p3]
+            cli::run(&["build", "-k", &ks, "-o", "all", "p0.fa", "p1.fa"], dir, None).code == 0
+                && cli::run(&["build", "-k", &ks, "-o", "n2", "p2.fa"], dir, None).code == 0
+                && cli::run(&["build", "-k", &ks, "-o", "n3", "p3.fa"], dir, None).code == 0
+        };
+        let cases: Vec<(&str, Vec<&str>, Vec<usize>)> = vec![
+            ("output is the first input", vec!["merge", "-o", "all", "all.skf", "n2.skf", "n3.skf"], vec![0, 1, 2, 3]),
+            ("output is the last input, given with its suffix and ./", vec!["merge", "-o", "./all.skf", "n2.skf", "n3.skf", "all.skf"], vec![2, 3, 0, 1]),
+            ("output is the second of two inputs", vec!["merge", "-o", "n2", "all.skf", "n2.skf"], vec![0, 1, 2]),
+        ];
+        for (what, args, order) in cases {
+            if !fresh(&dir) {
+                rep.machinery("C07 in place: build failed".into());
+                continue;
+            }
+            rep.evaluations += 1;
+            rep.nontrivial += 1;
+            rep.corner("cli_merge_output_is_an_input");
+            let o = cli::run(&args, &dir, None);
+            let outname = if args[2].contains("n2") { "n2.skf" } else { "all.skf" };
+            let got = FileState::read(&format!("{dir}/{outname}"));
+            let want = Table::from_samples(k, true, &order.iter().map(|i| names[*i].clone()).collect::<Vec<_>>(), &order.iter().map(|i| pool[*i].clone()).collect::<Vec<_>>());
+            if o.code != 0 || got.as_ref().map(|g| &g.table) != Ok(&want) {
+                rep.violate(format!("in place k={k}: {what}"), format!("{what}: ska {} (exit {}) leaves names {:?}; all inputs in argument order are {:?}", args.join(" "), o.code, got.as_ref().map(|g| g.table.names.clone()), want.names), json!({"cli": what, "k": k}));
+            }
+        }
+    }
+}
+
 pub fn replay(_case: &Value) -> Result<Option<String>, String> {
     Err("C07 cases are derivations inside a search; rerun ./check C07".into())
 }
@@ -377,5 +422,6 @@ pub fn run(ctx: &Ctx, rep: &mut Report) {
     refusals(ctx, rep, &mut idx);
     rep.completed.push("refusals".into());
     equal_names(ctx, rep, &mut idx);
+    in_place(ctx, rep, &mut idx);
     rep.completed.push("equal sample names".into());
 }
